@@ -21,6 +21,15 @@ func (k Keeper) CreateClient(
 	clientState exported.ClientState,
 	consensusState exported.ConsensusState,
 ) error {
+	// the two parts of a proposal are packed independently: a consensus state of another client type can never be
+	// read by the client and fails genesis validation of the export
+	if consensusState.ClientType() != clientState.ClientType() {
+		return sdkerrors.Wrapf(
+			types.ErrInvalidConsensus,
+			"consensus state client type %s does not equal client state client type %s",
+			consensusState.ClientType(), clientState.ClientType(),
+		)
+	}
 	k.SetClientState(ctx, chainName, clientState)
 	// verifies initial consensus state against client state and initializes client store with any client-specific metadata
 	// e.g. set ProcessedTime in Tendermint clients
@@ -67,6 +76,13 @@ func (k Keeper) UpgradeClient(
 	if clientState.ClientType() != newClientState.ClientType() {
 		return sdkerrors.Wrapf(types.ErrInvalidClientType, "cannot upgrade client %s, client-type not match", chainName)
 	}
+	if newConsensusState.ClientType() != newClientState.ClientType() {
+		return sdkerrors.Wrapf(
+			types.ErrInvalidConsensus,
+			"consensus state client type %s does not equal client state client type %s",
+			newConsensusState.ClientType(), newClientState.ClientType(),
+		)
+	}
 
 	if err := newClientState.UpgradeState(ctx, k.cdc, k.ClientStore(ctx, chainName), newConsensusState); err != nil {
 		return sdkerrors.Wrapf(types.ErrUpgradeClient, "cannot upgrade client %s", chainName)
@@ -112,6 +128,13 @@ func (k Keeper) ToggleClient(
 
 	if clientState.ClientType() == newClientState.ClientType() {
 		return sdkerrors.Wrapf(types.ErrInvalidClientType, "cannot toggle client %s, client-type can't be the same", chainName)
+	}
+	if newConsensusState.ClientType() != newClientState.ClientType() {
+		return sdkerrors.Wrapf(
+			types.ErrInvalidConsensus,
+			"consensus state client type %s does not equal client state client type %s",
+			newConsensusState.ClientType(), newClientState.ClientType(),
+		)
 	}
 
 	// the client store of the chain name is re-used: remove the consensus states and
